@@ -1,13 +1,24 @@
 // C15 — SPDE operators, projections and solvers are mutually consistent.
 //
-// One case = one (mesh, Matern/Markov model) pair on which the following relations are evaluated
-//   (a) matrix-free PrecisionOp (all entry points) == assembled PrecisionOpCs::getQ() applied by OUR OWN product
-//   (b) Q symmetric, positive definite (own dense Cholesky / x'Qx), CholeskySparse succeeds and solves
-//   (c) ProjMatrix rows: inside -> w >= 0, sum 1, affine reproduction; outside -> empty row; row <-> sample alignment
-//   (d) kriging / likelihood through Cholesky and through the iterative solver agree (tolerance from the solver's
-//       own stopping rule times ||A^-1|| computed here)
-//   (e) every solve returns x with a small residual for the system it claims to solve (own residual)
+// 96 % of the cases = one (mesh, Matern/Markov model) pair on which the following relations are evaluated
+//   (a) matrix-free PrecisionOp (evalDirect x2, addToDest, evalPower(ONE), extractDiag, evalInverse/Chebychev) == assembled
+//       PrecisionOpCs::getQ() applied by OUR OWN product; Q == Lambda P(S) Lambda evaluated by us from S, Lambda, Markov coefficients;
+//       invariants of S (S sqrt(TildeC) = 0, symmetric, PSD); turbo mesh vs its MeshEStandard copy give the same Q
+//   (b) Q symmetric, positive definite (own dense Cholesky / x'Qx), CholeskySparse succeeds, solves, log det, evalSimulate identity
+//   (c) ProjMatrix rows: inside -> w >= 0, sum 1, affine reproduction; outside -> empty row; row <-> sample alignment; shape;
+//       mesh2point / point2mesh vs own products; turbo vs standard copy
+//   (d) krigingSPDE / krigingSPDENew / logLikelihoodSPDE with useCholesky = 1 and 0 vs an own dense solution of the conditional system
+//       (tolerance for the iterative mode = the solver's own stopping rule times ||A^-1|| computed here)
+//   (e) every solve returns x with a small residual for the system it claims to solve (own residual): CholeskySparse::solve,
+//       PrecisionOpCs::evalInverse, PrecisionOpMultiConditional(Cs)::evalInverse (1 or 2 structures), SPDEOp / SPDEOpMatrix products
+// 4 % of the cases = krigingSPDENew on a target Db without Z variable (aborts in this build, hence isolated).
 // Reference computations: harness/common/c15_util.hpp + ref_linalg.hpp (long double, naive).
+// Keys of diagnosed defects (see the author's report): C15:PrecisionOp::addToDest:destination-overwritten,
+//   C15:SPDEOp::_addToDestImpl:data-term-lost(...), C15:ProjMatrix:turbo:rows-shifted-after-sample-outside-grid,
+//   C15:ProjMatrix:standard:rows-missing-when-last-samples-outside, C15:MeshEStandard::resetFromTurbo:ndim-not-set,
+//   C15:PrecisionOpMultiConditional::computeLogDetOp:contributes-0,
+//   C15:ALinearOpMulti::evalInverse:unconverged-at-default-nitermax-returned-silently, C15:krigingSPDENew:target-db-without-Z-variable
+//   (the last one shows up as crash:assert:MatrixSparse::addProdMatVecInPlaceToDest in builds with assertions).
 #include "common/vh.hpp"
 #include "common/ref_linalg.hpp"
 #include "common/c15_util.hpp"
@@ -947,8 +958,8 @@ static void checkConditional(Rng& r, Ctx& c, const MeshCase& mc, const std::vect
   pch.makeReady();
   std::vector<std::vector<double>> rhs1 = pcg.computeRhs(z), rhs2 = pch.computeRhs(z);
   {
-    double q1 = (int)rhs1.size() == K ? ratioVec(flat(rhs1), bref, bmag, 16) : INFINITY;
-    double q2 = (int)rhs2.size() == K ? ratioVec(flat(rhs2), bref, bmag, 16) : INFINITY;
+    double q1 = (int)rhs1.size() == K ? ratioVec(flat(rhs1), bref, bmag, 8. * (nd + 4)) : INFINITY; // up to nd terms accumulate per apex
+    double q2 = (int)rhs2.size() == K ? ratioVec(flat(rhs2), bref, bmag, 8. * (nd + 4)) : INFINITY;
     c.check("cond-rhs", "C15:cond:computeRhs:" + cls, q1 <= 1 && q2 <= 1, std::max(q1, q2), 1);
     if (!(q1 <= 1 && q2 <= 1)) return;
   }
@@ -1201,7 +1212,7 @@ static void checkConditional(Rng& r, Ctx& c, const MeshCase& mc, const std::vect
   {
     logdetRef = chA.logdet() - logdetQ + nd * std::log((LD)sigma2);
     double ld = pch.computeTotalLogDet(1);
-    double tol = 1e-10 * (N + std::fabs((double)logdetRef)) + 256. * N * EPS * kappa;
+    double tol = 1e-10 * (N + std::fabs((double)logdetRef)) + 1024. * N * EPS * kappa;
     c.close("cond-logdet-chol", "C15:cond:computeTotalLogDet:chol-vs-reference:" + kcls, ld, (double)logdetRef, tol);
   }
 
